@@ -17,6 +17,7 @@ def run(ctx, R, tier):
     frac(F, R)
     assign_ops(F, R)
     c17.mapping(F, R)
+    speed_units(F, R)
     # the easings are built from powers: their domain conditions are obligations (A.singular)
     from ..enginea import run_singular_only
     run_singular_only(R, F, lambda fn: fn.startswith('tween::'), floor=2)
@@ -233,6 +234,14 @@ def cmp_(F, R):
     b = F.body('<clock::time::ClockTime as std::cmp::PartialOrd>::partial_cmp')
     if not R.check(b is not None, 'B.C19.cmp', 'anchor', 'partial_cmp not found'):
         return
+    # `<`, `<=`, `>`, `>=` are the provided methods derived from partial_cmp: an override of one of them is a second ordering
+    # that can disagree with it (`Info::when_to_start` compares with `>=`)
+    over = []
+    for im in F.impls:
+        if im['self_ty'] == 'clock::time::ClockTime' and im['trait'] in ('std::cmp::PartialOrd', 'std::cmp::PartialEq', 'std::cmp::Ord'):
+            over += [it['path'].split('::')[-1] for it in im['items'] if it['path'].split('::')[-1] in ('lt', 'le', 'gt', 'ge', 'ne', 'max', 'min', 'clamp')]
+    R.check(not over, 'B.C19.cmp', 'no-override', 'ClockTime overrides %s: a comparison operator with an ordering of its own' % over,
+            detail='only partial_cmp (and eq) are implemented')
     ok = True
     why = ''
     seen = set()
@@ -274,3 +283,32 @@ def cmp_(F, R):
             why = 'a path does not compare the clocks'
     R.check(ok and seen == {'different-clock', 'equal-ticks', 'ticks'}, 'B.C19.cmp', 'partial_cmp', why or 'branches %s' % sorted(seen),
             detail={'branches': sorted(seen)}, where=b.file)
+
+
+def speed_units(F, R, rule='B.C19.speed-units'):
+    """"The three clock-speed units convert consistently", where it matters at run time: a tween between two speeds
+    interpolates in the TARGET's unit - for each variant V of `b`, `interpolate(a, b, t)` is
+    `V(interpolate(a.as_<v>(), b.0, t))`: the start value converted to V, the result labelled V."""
+    import re
+    b = F.body('<clock::clock_speed::ClockSpeed as tween::tweenable::Tweenable>::interpolate')
+    if not R.check(b is not None, rule, 'anchor', 'ClockSpeed::interpolate not found'):
+        return
+    seen = set()
+    bad = None
+    for p in explore(b):
+        if p.end != 'return':
+            continue
+        vs = [lab for _, desc, lab in p.decisions if desc.startswith('discr(') and (desc == 'discr(b)' or desc.startswith('discr(b')) and lab in ('SecondsPerTick', 'TicksPerSecond', 'TicksPerMinute')]
+        ret = str(p.ret)
+        if not vs:
+            bad = 'a path does not look at the unit of the target (returns %s)' % ret[:80]
+            continue
+        v = vs[-1]
+        seen.add(v)
+        snake = re.sub(r'(?<!^)([A-Z])', r'_\1', v).lower()
+        if not ret.startswith('clock::clock_speed::ClockSpeed::%s(' % v):
+            bad = 'for a target in %s the result is %s' % (v, ret[:80])
+        elif ('ClockSpeed::as_%s(' % snake) not in ret or 'as_' in ret.replace('ClockSpeed::as_%s(' % snake, '').replace('as %s' % v, ''):
+            bad = 'for a target in %s the start value is not converted with as_%s(): %s' % (v, snake, ret[:140])
+    R.check(bad is None and seen == {'SecondsPerTick', 'TicksPerSecond', 'TicksPerMinute'}, rule, 'interpolate',
+            'ClockSpeed::interpolate: %s' % (bad or 'units seen: %s' % sorted(seen)), detail={'units': sorted(seen)}, where=b.file)
